@@ -144,9 +144,19 @@ def const_of(v) -> Optional[Fraction]:
     return v.const_value() if isinstance(v, RF) else None
 
 
+def _setup_module(name: str) -> bool:
+    """A module of the problems package that holds construction helpers shared by the families (not a generator of
+    coefficient tables)."""
+    return name.startswith('iOpt.problems.') and 'generation' not in name and '_function' not in name and \
+        'GKLS' not in name
+
+
 def shipped_problems(ctx: Ctx) -> List[ClassInfo]:
     base = ctx.ix.cls('Problem')
-    return sorted([c for c in base.all_subclasses() if c.module.name.startswith('iOpt.problems')],
+    # intermediate base classes (no constructor and no objective of their own, with shipped subclasses) only carry
+    # helpers shared by the families
+    return sorted([c for c in base.all_subclasses() if c.module.name.startswith('iOpt.problems') and
+                   not ('__init__' not in c.methods and 'Calculate' not in c.methods and c.subclasses)],
                   key=lambda c: c.name)
 
 
@@ -193,7 +203,7 @@ def check_problem(ctx: Ctx, cls: ClassInfo):
         if f.name in ('__init__', 'Calculate'):
             return False
         return f.module is base.module or (f.cls is not None and f.cls.is_subclass_of(base)) or \
-            (f.cls is None and f.module is cls.module)
+            (f.cls is None and (f.module is cls.module or _setup_module(f.module.name)))
     ex = ctx.explorer(unroll=1, max_paths=8000, inline=inl)
     selfv = var(init.param_names[0])
     sk = key_of(selfv)
@@ -664,7 +674,7 @@ def r18_8(ctx: Ctx):
             if f.name in ('__init__', 'Calculate'):
                 return False
             return f.module is base.module or (f.cls is not None and f.cls.is_subclass_of(base)) or \
-                (f.cls is None and f.module is cls.module)
+                (f.cls is None and (f.module is cls.module or _setup_module(f.module.name)))
         ex = ctx.explorer(unroll=1, max_paths=8000, inline=inl)
         try:
             paths = C.normal_paths(ex.explore(init))
